@@ -92,3 +92,22 @@ Proof.
   exists b. split; [exact Hb|]. intros ru Hru. pose proof (Hall ru Hru). lia.
 Qed.
 Print Assumptions C12_model_table_bounds.
+
+(* Part 4 (RejectProofs.v): universal, for EVERY input tree the model accepts under source routing: the route type is
+   at least one bit wide, and every word of the emitted RoutingTables is written with exactly the route width and that
+   many digits and holds its value in it -- "route words have exactly the route width" as a theorem about the model
+   (what seed C12-mut10 broke in the implementation by dropping the zero padding). *)
+From FV Require Import Compile ModelProofs RejectProofs.
+Theorem C12_model_route_words : forall sp v n, run_yaml sp v = Ok n -> n_algo n = "SourceRouting" ->
+  exists rb tb, n_route_bits n = Some rb /\ 1 <= rb /\ n_tables n = Some tb /\
+    forall row w, In row tb -> In w row -> w_width w = rb /\ w_digits w = rb /\ 0 <= w_val w < 2 ^ rb.
+Proof.
+  intros sp v n H Hal. unfold run_yaml in H. destruct (parse_desc v) as [d|]; [|discriminate]. cbn [bind] in H.
+  destruct (run_inv _ _ _ H) as (g & c & ri & Hb & Hc & Hri & He).
+  assert (Ha : d_algo (c_desc c) = SRC).
+  { destruct (emit_inv _ _ _ He) as (_ & axi & rts & _ & _ & Hn). rewrite Hn in Hal. cbn [n_algo] in Hal.
+    destruct (d_algo (c_desc c)); cbn in Hal; try discriminate Hal; reflexivity. }
+  destruct (netlist_route_words sp c ri n Hri He Ha) as (H1 & H2 & tb & H3 & H4).
+  exists (ri_route_bits ri), tb. auto.
+Qed.
+Print Assumptions C12_model_route_words.
